@@ -245,7 +245,8 @@ func (f *g2lFn) primCall(c *ast.CallExpr, fn *types.Func) (string, bool) {
 			args = append(args, "_")
 			continue
 		}
-		if sig.Variadic() && i >= ps.Len()-1 && !(f.g.refsOn() && c.Ellipsis.IsValid() && i == ps.Len()-1) { // go2lean_refs.go: f(xs...) passes the slice
+		if sig.Variadic() && i >= ps.Len()-1 && !(f.g.refsOn() && c.Ellipsis.IsValid() && i == ps.Len()-1) && // go2lean_refs.go: f(xs...) passes the slice
+			!(c.Ellipsis.IsValid() && f.ellipsisOK(c)) { // go2lean_env.go
 			f.fail("the template of primitive `%s` mentions a variadic argument", key)
 		}
 		args = append(args, f.callArgs(fn, c.Args[i:i+1], true)[0])
